@@ -139,7 +139,8 @@ def mat_attr(it, m: Mat, name):
     if name in ("tocoo", "tocsr", "tocsc", "asformat"):
         return PyFunc(lambda it_, *a, **k: convert(it_, m, name, *a, **k), f"spmatrix.{name}")
     if name == "astype":
-        return PyFunc(lambda it_, dt, **k: m, "spmatrix.astype")
+        # scipy: astype(dtype, copy=True) returns a NEW matrix (also for the same dtype); copy=False may share
+        return PyFunc(lambda it_, dt, **k: (m if k.get("copy") is False else convert(it_, m, "copy", m.fmt, copy=True)), "spmatrix.astype")
     if name == "toarray":
         if isinstance(m.cols, int) and m.cols == 1:
             e1 = entry_fn(it, m)
